@@ -1,7 +1,12 @@
 #!/bin/sh
-# every check, few runs, WITH evidence writing, then schema validation
+# every check, few runs, WITH evidence writing, then schema validation.
+# The evidence files of the full runs are put back afterwards: what is
+# committed under evidence/ must come from the registered commands, not from
+# this 150-run smoke test.
 cd "$(dirname "$0")/.." || exit 2
 rc=0
+keep=$(mktemp -d)
+cp evidence/*.json "$keep"/ 2>/dev/null
 for id in C01 C09 C10 C11 C12 C13 C14 C15 C16 C18 C19; do
   out=$(./check $id --runs ${1:-150} 2>&1 | grep -v conda | tail -1)
   case "$out" in *exit=0) ;; *) echo "SMOKE FAIL $id: $out"; rc=1;; esac
@@ -19,5 +24,7 @@ jsonschema.validate(json.load(open('MANIFEST.json')),
                     json.load(open('/root/.vp/MANIFEST.schema.json')))
 sys.exit(bad)
 PY
+cp "$keep"/*.json evidence/ 2>/dev/null
+rm -rf "$keep"
 [ $rc = 0 ] && echo "smoke ok"
 exit $rc
